@@ -28,10 +28,15 @@ def make_fn(k):
 def make_world():
     fns = [make_fn(k) for k in range(NF)]
     dags = []
+    def second(b=0):
+        return b
+    second.__name__ = second.__qualname__ = "second"
+    xsecond = xn(second)
     for d in range(ND):
         def mk(inner):
-            def describe(a):
-                return inner(a)
+            # a defaulted parameter: a run that passes it must not change what a run that omits it sees
+            def describe(a, b=5):
+                return inner(a), xsecond(b)
             return describe
         describe = mk(fns[d])
         describe.__name__ = describe.__qualname__ = "dag%d" % d
@@ -212,8 +217,13 @@ def run(sc):
                         v = fns[int(a[1:])](5)
                         res = classify(v) or ("FN%s" % a[1:] if v == ("f%s" % a[1:], 5) else "BAD:%r" % (v,))
                     else:
-                        v = dags[int(a[1:])](100 + tid) if a[0] == "D" else dags[int(a[1:])].executor()(100 + tid)
-                        res = classify(v) or ("DAG%s" % a[1:] if v == ("f%s" % a[1:], 100 + tid) else "BAD:%r" % (v,))
+                        if a[0] == "D":
+                            v = dags[int(a[1:])](100 + tid)
+                            want_v = (("f%s" % a[1:], 100 + tid), 5)
+                        else:
+                            v = dags[int(a[1:])].executor()(100 + tid, 70 + tid)      # passes the defaulted parameter too
+                            want_v = (("f%s" % a[1:], 100 + tid), 70 + tid)
+                        res = classify(v) or ("DAG%s" % a[1:] if v == want_v else "BAD:%r" % (v,))
                 except BaseException as e:  # noqa: BLE001
                     res = "EXC:" + type(e).__name__
                 if o:
